@@ -227,6 +227,29 @@ EXTRA = {
     "C19": LARGE,
 }
 
+# layers added in the third session
+WIDE = " Wide inputs (67 / 131 / 259 channels) are part of every numeric layer."
+TLAPS = " In the thorough tier the scalar index layer of this family is additionally PROVED for all sizes with TLAPS (spec/*Proofs.tla); TLC binds the scalar forms to the operator tensors (ScalarFormOK / ColdScalarOK / IfiltScalarOK / SwtScalarForm)."
+EXTRA3 = {
+    "C01": WIDE + TLAPS + " The exact operator replay is repeated from float32 data (integer taps: float32 arithmetic is exact); the numeric modules have a past (calls in other precisions).",
+    "C02": WIDE + " Round trips with a different wavelet per axis; TLAPS: RoundTripLen." ,
+    "C03": WIDE + TLAPS + " The exact operator replay is repeated from float32 data.",
+    "C04": WIDE,
+    "C05": " Structured cotangents (one band / part / channel block, contrasts e_i - e_j, expanded and non-contiguous layouts) against the linearity of back-propagation in the cotangent; TLAPS: the tape invariant for any number of calls.",
+    "C06": " Structured cotangents as in C05; TLAPS: the tape invariant.",
+    "C07": " Channel c of all four maps (forward, inverse, both VJPs) with 67 / 131 channels against the map on channel c alone; component-wise superposition with each input tensor at its own scale (1e-3 .. 1e8).",
+    "C08": " 67-channel inputs; TLAPS: size extensions and channel flattenings for all sizes / channel counts.",
+    "C09": " Structured cotangents as in C05 (zero-mode layers included); TLAPS: the tape invariant.",
+    "C10": WIDE + TLAPS + " Deep pyramids (J = 3..5) with None at interior / adjacent levels; modules with a past.",
+    "C11": WIDE + TLAPS + " Pyramids with 1e5 .. 1e7 between their components; the exact operator replay is repeated from float32 pyramids.",
+    "C13": WIDE + TLAPS,
+    "C14": " None levels in the 4-tuple replay.",
+    "C15": " TLAPS: Deterministic / OutDtype / NoForeignWrite of the Session machine for any number of threads, modules and any history length.",
+    "C16": " A converted module holding the constructed module's state, one run under default float32, the other under float64: values and gradients agree to float64 rounding (the ambient default dtype must not matter); TLAPS as in C15.",
+}
+for _k, _v in EXTRA3.items():
+    EXTRA[_k] = EXTRA.get(_k, "") + _v
+
 NOT_YET = "not yet built at this commit (work in progress; see DESIGN.md section 14 for the build order)"
 
 
@@ -272,7 +295,9 @@ def build():
             {"name": "tlc+harness", "path": "check",
              "serves_properties": sorted(CLAIMED),
              "kind_free_text": "TLA+ specifications in spec/ model-checked by TLC (sharded JVMs), bound to the code by "
-                               "spec->code replay and code->spec trace validation (harness/)"},
+                               "spec->code replay and code->spec trace validation (harness/); Apalache lemmas (Apa_Shapes) and "
+                               "TLAPS proofs (spec/*Proofs.tla, harness/proofs.py) lift the scalar index layer and the state "
+                               "machines' invariants to all sizes in the thorough tier"},
         ],
         "checks": checks,
         "not_applicable": na,
